@@ -483,7 +483,14 @@ fn gen_c12(rng: &mut Prng, seed: u64, thorough: bool) -> Trace {
                 if entry == 0 { path_len = -1; } else { path_len = *rng.pick(&[0i64, 1, 19, 21, 32]); }
             }
             6 => {
-                if entry != 0 { dir_tweak = rng.below(200) as i64; }
+                if entry != 0 {
+                    if (entry == 1 || entry == 3) && rng.chance(1, 2) {
+                        // witness bytes with a lying element count or cut short (see Step::Prove execution: dir_tweak <= -2)
+                        dir_tweak = -2 - rng.below(22) as i64;
+                    } else {
+                        dir_tweak = rng.below(200) as i64;
+                    }
+                }
             }
             7 => {
                 if entry <= 1 {
